@@ -114,15 +114,10 @@ func init() {
 		},
 		"vOverride": func(i *interpreter, fr *frame, fn *ssa.Function, a []value) value {
 			target := a[0].(string)
-			var f *ssa.Function
+			var f value
 			switch x := a[1].(iface).v.(type) {
-			case *ssa.Function:
+			case *ssa.Function, *closure:
 				f = x
-			case *closure:
-				if len(x.Env) > 0 {
-					unsupported("vOverride with a closure that captures variables")
-				}
-				f = x.Fn
 			default:
 				unsupported("vOverride: not a function")
 			}
